@@ -1076,6 +1076,9 @@ impl Check for C12 {
     }
     fn shrink(&self, s: &MScn) -> Vec<MScn> {
         let mut c = shrink_mscn(s);
+        if s.srcs.is_empty() {
+            return c;
+        }
         let lines: Vec<&str> = s.srcs[0].text.lines().collect();
         for i in (1..lines.len().saturating_sub(1)).rev() {
             if !lines[i].starts_with("    ") || lines[i].trim().starts_with('.') {
